@@ -142,20 +142,26 @@ def refRun (ph : Phase) (db : DB) : List (Int × Req) → Phase × DB × List (L
 inductive StepClass where
   /-- everything must coincide -/
   | clean
-  /-- an EXEC whose block has a failing command, every command up to it being in the model's
-  domain: phase and tables must coincide, the tokens may stop early (D12) -/
+  /-- an EXEC whose block has a failing command, every command of the block being in the model's
+  domain: everything must coincide as well (the tables are rolled back, all |q| replies are written;
+  D12 — the reply stopped at the failing command — is repaired) -/
   | fails
-  /-- an EXEC whose block meets, before any failure, a command outside the command model's
-  numeric domain (`RunRes.ood`, e.g. INCRBYFLOAT): the wire model stops there and makes no claim -/
+  /-- an EXEC whose block contains a command outside the command model's numeric domain
+  (`RunRes.ood`, e.g. INCRBYFLOAT of a hex float): the wire model stops there and makes no claim -/
   | ood
 deriving DecidableEq, Repr
 
-/-- the first command of the block that fails or leaves the model's domain decides -/
+/-- every command of the block runs: a command outside the model's domain anywhere makes the block `.ood`;
+otherwise a failing command anywhere makes it `.fails` -/
 def blockClass (now : Int) : List ParsedCmd → DB → StepClass
   | [], _ => .clean
   | c :: cs, db =>
     let r := run c (Model.tx true) now db none
-    if r.ood then .ood else if r.failed then .fails else blockClass now cs r.db
+    if r.ood then .ood else
+    match blockClass now cs r.db with
+    | .ood => .ood
+    | .fails => .fails
+    | .clean => if r.failed then .fails else .clean
 
 def stepClass (ph : Phase) (db : DB) (now : Int) : Req → StepClass
   | .exec => match ph with | .queuing q => blockClass now q db | .idle => .clean
@@ -165,8 +171,7 @@ def stepClass (ph : Phase) (db : DB) (now : Int) : Req → StepClass
 def Refines (cls : StepClass) (impl ref : Phase × DB × List Token) : Prop :=
   match cls with
   | .clean => impl = ref
-  | .fails => impl.1 = ref.1 ∧ impl.2.1 = ref.2.1 ∧
-      impl.2.2.head? = ref.2.2.head? ∧ impl.2.2 <+: ref.2.2
+  | .fails => impl = ref
   | .ood => impl.1 = ref.1
 
 /-- the class of every step along the reference run -/
@@ -190,13 +195,13 @@ instance (ph : Phase) (db : DB) (rs : List (Int × Req)) : Decidable (CleanRun p
 instance (ph : Phase) (db : DB) (rs : List (Int × Req)) : Decidable (InDomainRun ph db rs) := by
   unfold InDomainRun; infer_instance
 
-/-- the replies of a run, step by step: equal on a clean step, header + prefix on a failing one -/
+/-- the replies of a run, step by step: equal on a clean step and on a failing one -/
 def RepliesRefine : List StepClass → List (List Token) → List (List Token) → Prop
   | [], [], [] => True
   | c :: cs, i :: is, r :: rs =>
     (match c with
       | .clean => i = r
-      | .fails => i.head? = r.head? ∧ i <+: r
+      | .fails => i = r
       | .ood => True) ∧ RepliesRefine cs is rs
   | _, _, _ => False
 
